@@ -363,7 +363,9 @@ def _present_frame(a, b, pick):
     return k, present[_index(pick // 5, len(present))]
 
 
-def rel_sample(a, pick):
+def rel_sample(a, pick, other32=None, other64=None):
+    other32 = other32 or globals()["other32"]
+    other64 = other64 or globals()["other64"]
     t = a["t"]
     a = copy.deepcopy(a)
     b = copy.deepcopy(a)
@@ -415,6 +417,31 @@ def rel_sample(a, pick):
         c[f][j] = other64(c[f][j])
         return a, b
     return None
+
+
+def neutral32(bits, variant=0):
+    """another finite float32 whose four bytes have the same byte sum, the same position-weighted sum (consecutive deltas +1,-2,+1 or
+    -1,+2,-1: what Adler / Fletcher style checksums see), or the same XOR (one bit flipped in two bytes), or are a permutation of the
+    original bytes - and which differs from the original by far more than any comparison tolerance (the exponent byte takes part)"""
+    b = list(int(bits).to_bytes(4, "little"))
+    cands = []
+    for d in ((1, -2, 1), (-1, 2, -1)):
+        c = [b[0], b[1] + d[0], b[2] + d[1], b[3] + d[2]]
+        cands.append(c)
+    cands.append([b[0], b[1], b[2] ^ 0x20, b[3] ^ 0x20])
+    cands.append([b[0], b[1], b[3], b[2]])
+    cands.append([b[0], b[1] ^ 0x10, b[2], b[3] ^ 0x10])
+    for k in range(len(cands)):
+        c = cands[(variant + k) % len(cands)]
+        if all(0 <= x <= 255 for x in c) and c != b:
+            v = int.from_bytes(bytes(c), "little")
+            if (v >> 23) & 0xFF != 0xFF and (v >> 23) & 0xFF != 0 and (bits >> 23) & 0xFF != 0:
+                return v
+    return other32(bits)
+
+
+def rel_sample_neutral(a, pick):
+    return rel_sample(a, pick, other32=lambda bits: neutral32(bits, pick // 13))
 
 
 def rel_cam_field(field):
@@ -517,9 +544,9 @@ def rel_event_count(a, pick):
     return a, b
 
 
-EQUAL_RELS = ("same", "rebuilt", "roundtrip")
+EQUAL_RELS = ("same", "rebuilt", "roundtrip", "subclass-roundtrip")
 DIFF_RELS = {"make-duplicate": rel_duplicate, "swap-items": rel_swap, "d3-format": rel_d3_format, "append-item": rel_append, "drop-last": rel_drop_last, "drop-middle": rel_drop_middle, "label": rel_label, "label-confusable": rel_label_confusable,
-             "channel": rel_channel, "sample": rel_sample, "viewport": rel_viewport, "camera-index": rel_index, "gap": rel_gap,
+             "channel": rel_channel, "sample": rel_sample, "sample-checksum-neutral": rel_sample_neutral, "viewport": rel_viewport, "camera-index": rel_index, "gap": rel_gap,
              "link": rel_link, "event-type": rel_event_type, "event-count": rel_event_count}
 for _f in CAM_FIELDS:
     DIFF_RELS["camera:" + _f] = rel_cam_field(_f)
@@ -539,6 +566,10 @@ def relations_for(t):
         rels.append("d3-format")
     if t != "optical":
         rels.append("sample")
+    if t in ("data3D", "force3D", "events"):
+        # (only where samples are compared exactly: platform data / calibration, EMG and 2D points use a tolerance, under which a
+        #  tiny value and four times that value are the same)
+        rels.append("sample-checksum-neutral")
     if t in ("data3D", "emg", "force3D", "platCal", "optical", "events"):
         rels += ["label", "label-confusable"]
     if t in ("emg", "platData", "platCal", "data2D", "calib"):
@@ -594,6 +625,14 @@ def make_run(t, rel):
                 b = a
             elif rel == "rebuilt":
                 b = specs.build(a_spec, hints)
+            elif rel == "subclass-roundtrip":
+                # an application's own trivial subclass of the block class (one convenience method more) is still that block: it equals
+                # what the library reads back from its encoding (always an instance of the library's own class)
+                ok, res = ctx.must(lambda: specs.lib_decode(t, spec["format"], specs.lib_write(a)), f"{rel}/encode-decode", f"round trip of a valid {t} block")
+                if not ok:
+                    return
+                b = res[0]
+                a.__class__ = type("Mine" + type(a).__name__, (type(a),), {"convenience": lambda self: len(specs.lib_write(self))})
             else:
                 ok, res = ctx.must(lambda: specs.lib_decode(t, spec["format"], specs.lib_write(a)), f"{rel}/encode-decode", f"round trip of a valid {t} block")
                 if not ok:
@@ -628,7 +667,7 @@ def make_run(t, rel):
 
 
 def make_strategy(t, rel):
-    need = 3 if rel == "drop-middle" else 2 if rel in ("swap-items", "make-duplicate") else 1 if rel in ("drop-last", "label", "label-confusable", "channel", "sample", "viewport", "camera-index", "gap", "event-type", "event-count") or rel.startswith(("camera:", "platform:")) else 0
+    need = 3 if rel == "drop-middle" else 2 if rel in ("swap-items", "make-duplicate") else 1 if rel in ("drop-last", "label", "label-confusable", "channel", "sample", "sample-checksum-neutral", "viewport", "camera-index", "gap", "event-type", "event-count") or rel.startswith(("camera:", "platform:")) else 0
 
     def strat(tier):
         base = specs.SPEC[t](tier, need)
